@@ -21,6 +21,12 @@ class LibCrash(Exception):
         self.tags = list(tags)
 
 
+class MonitorViolation(Exception):
+    """a monitor attached to a library callable observed a broken post-condition
+    while a case was being built or run (the worker reports it as a violation of
+    the running property)"""
+
+
 class CaseResult:
     def __init__(self, case):
         self.case_id = case['id']
